@@ -13,10 +13,13 @@ import re
 import subprocess
 
 from .. import facts, report, tablerules, witness
+from . import c16
 
 
 def rules(chk, db):
     tablerules.rules(chk, db, {'TW', 'TE', 'TC', 'TH', 'TL', 'TD', 'TR', 'TS'})
+    # skipping unknown/deleted entries and landing exactly after the table is the bounded reader's/writer's frame arithmetic
+    c16.rules(chk, db, prefix='B.')
 
 
 def run(chk, db):
